@@ -71,3 +71,16 @@ pub fn proof_order(cap: usize) -> Vec<usize> {
     LAST_PROOF.store(*v.last().unwrap(), Ordering::Relaxed);
     v
 }
+
+/// The harness shares instances between threads (C14, C18). If a change to the library makes a type lose `Sync`
+/// (a `RefCell` memo, say), the harness must still build - otherwise every check would end in a tool error instead
+/// of judging the behaviour. What such a type then does under contention is data like any other response.
+pub struct Shared<T>(pub T);
+unsafe impl<T> Send for Shared<T> {}
+unsafe impl<T> Sync for Shared<T> {}
+impl<T> std::ops::Deref for Shared<T> {
+    type Target = T;
+    fn deref(&self) -> &T {
+        &self.0
+    }
+}
